@@ -150,6 +150,47 @@ example :
     ((handleType c [b "type", b "k"]).run c ((handleGetex c [b "getex", b "k", b "px", b "1000"]).run c s).1).2
       = .done (.err (b "key k does not exist")) := by decide
 
+/-- **A renamed value keeps its own deadline and never takes the overwritten key's** (repaired in /repo by a
+    `fix:` commit; before it RENAME onto an existing key with a deadline gave the moved value that deadline and
+    dropped the source's). For every state, live source and EVERY destination — absent, with a deadline, or
+    stale: afterwards the destination carries exactly the source's deadline; so it is served (unchanged) by every
+    read up to that deadline under any later clock, never after it, and a source without a deadline yields a
+    key that never expires, whatever deadline the overwritten key had. -/
+theorem rename_keeps_own_deadline (c : Ctx) (s : State) (old new : Bytes) (e : Entry) (hm : c.cfg.maxMemory = 0)
+    (h : s.lookup c.db old = some e) (hlive : e.expired c.now = false) (hv : e.val ≠ .nil) (hne : old ≠ new) :
+    let s' := ((handleRename c [b "rename", old, new]).run c s).1
+    s'.lookup c.db new = some ⟨e.val, e.exp⟩ ∧
+    (∀ c' : Ctx, c'.db = c.db → e.expired c'.now = false → getValues c' s' [new] = (s', [e.val])) ∧
+    (∀ c' : Ctx, c'.db = c.db → e.expired c'.now = true → (getValues c' s' [new]).2 = [Val.nil]) ∧
+    (e.exp = none → ∀ c' : Ctx, c'.db = c.db → getValues c' s' [new] = (s', [e.val])) := by
+  obtain ⟨s', hrun, h1, _, _⟩ := handleRename_run c s old new e hm h hlive hv hne
+  simp only [hrun]
+  have hx : ∀ now, (⟨e.val, e.exp⟩ : Entry).expired now = e.expired now := fun _ => rfl
+  refine ⟨h1, ?_, ?_, ?_⟩
+  · intro c' hdb hl
+    exact getValues_live c' s' new _ (by rw [hdb]; exact h1) (by rw [hx]; exact hl)
+  · intro c' hdb hl
+    exact getValues_expired c' s' new _ (by rw [hdb]; exact h1) (by rw [hx]; exact hl)
+  · intro hn c' hdb
+    exact getValues_live c' s' new _ (by rw [hdb]; exact h1) (Entry.not_expired_none _ _ hn)
+
+/-- RENAME onto a key whose deadline has passed: the moved value is served (it does not inherit the stale deadline) -/
+theorem rename_onto_stale_key_is_served (c : Ctx) (s : State) (old new : Bytes) (e e2 : Entry) (hm : c.cfg.maxMemory = 0)
+    (h : s.lookup c.db old = some e) (hlive : e.expired c.now = false) (hv : e.val ≠ .nil) (hne : old ≠ new)
+    (_h2 : s.lookup c.db new = some e2) (_hstale : e2.expired c.now = true) :
+    (getValues c ((handleRename c [b "rename", old, new]).run c s).1 [new]).2 = [e.val] := by
+  have := (rename_keeps_own_deadline c s old new e hm h hlive hv hne).2.1 c rfl hlive
+  rw [this]
+
+/-- non-vacuity (the former witness of the defect, classes of C01 and C04): SET k1 old PX 1000; SET k2 7 PX 3000;
+    RENAME k1 k2 — PTTL k2 now answers k1's remaining 1000 ms (it answered 3000), and 1001 ms later k2 is gone -/
+example :
+    let c : Ctx := { db := 0, now := 1000 }
+    let s : State := { dbs := [(0, ⟨[(b "k1", ⟨.str (b "old"), some 2000⟩), (b "k2", ⟨.int 7, some 4000⟩)], [b "k1", b "k2"]⟩)], mem := 0 }
+    let s' := ((handleRename c [b "rename", b "k1", b "k2"]).run c s).1
+    ((handleTTL c [b "pttl", b "k2"]).run c s').2 = .done (.ok (b ":1000\r\n")) ∧
+    (getValues { c with now := 2001 } s' [b "k2"]).2 = [Val.nil] := by decide
+
 /-! ### where "unobservable once expired" fails (model witnesses, class `expired-key-still-exists`) -/
 
 /-- TTL on a key whose deadline has passed answers 0 instead of -2 -/
